@@ -83,7 +83,7 @@ theorem table_ok : TableOk Gen.prog reachInputs reachAt where
     · rw [hcc] at hin hall
       exact ⟨repOf c, hin, fun st => hall st (St.mem_all st)⟩
 
-theorem root_in_reach : (reachAt .stateRoot).contains ([], []) = true := by decide
+theorem root_in_reach : (reachAt .stateRoot).contains ([], [], 0, true) = true := by decide
 
 /-- **C12 (stack discipline), every file, every oracle, every fuel**: however a scan of a file from
     `stateRoot` ends, it does not end in a pop of an empty step stack, a pop of an empty event
